@@ -209,8 +209,12 @@ func c03r1(c *core.Ctx) {
 			} else if strings.HasPrefix(f.Recv, "Query") {
 				relExpr = "q.relations"
 			}
-			if f.Name == "storage.getBatchTables" {
-				relExpr = "batch.relations"
+			if f.Sig != nil {
+				for i := 0; i < f.Sig.Params().Len(); i++ {
+					if isPtrTo(f.Sig.Params().At(i).Type(), "Batch") {
+						relExpr = f.Sig.Params().At(i).Name() + ".relations"
+					}
+				}
 			}
 			okEmpty, okRel := loopSkips(c, sr, f, rs.Body, relExpr)
 			if okEmpty && okRel {
